@@ -161,9 +161,13 @@ class RelativeSequence(AbstractSequence):
         for channel in open_messages.keys():
             for key in open_messages[channel].keys():
                 note_list = open_messages[channel].get(key, [])
-                for msg in note_list:
-                    if msg in messages_normalized:
-                        messages_normalized.remove(msg)
+                if len(note_list) > 0:
+                    # Only the first message of the list was written, remove its last occurrence (the same message
+                    # object can occur several times, e.g. after concatenating a sequence with itself)
+                    for index in range(len(messages_normalized) - 1, -1, -1):
+                        if messages_normalized[index] is note_list[0]:
+                            messages_normalized.pop(index)
+                            break
 
         self._messages = messages_normalized
 
